@@ -42,6 +42,12 @@ REPO_DIR = os.path.abspath(os.environ.get("VERIF_REPO", "/repo"))
 def import_cut():
     """Puts VERIF_REPO first on sys.path and checks the import really comes from it."""
     sys.dont_write_bytecode = True
+    loaded = sys.modules.get("score_analysis")
+    if loaded is not None and os.path.abspath(getattr(loaded, "__file__", "") or "").startswith(REPO_DIR + os.sep):
+        # already the working tree (a worker process runs several tasks): importing it a second time would
+        # leave classes of the first import alive in helper caches (user subclasses), and isinstance checks
+        # between the two generations fail - seen once in the thorough tier of C11
+        return loaded
     if REPO_DIR in sys.path:
         sys.path.remove(REPO_DIR)
     sys.path.insert(0, REPO_DIR)
